@@ -55,6 +55,10 @@ class CoopLock(object):
             self.depth += 1
             return True
         s.point(tid, 'lock-acquire')
+        if s.abort:
+            self.owner = tid         # tearing down: never wait
+            self.depth += 1
+            return True
         while self.owner is not None and not (self.reentrant and self.owner == tid):
             if not blocking:
                 return False
@@ -70,6 +74,9 @@ class CoopLock(object):
         s = self.sched
         tid = s.current_tid()
         who = tid if tid is not None else 'main'
+        if s.abort:
+            self.owner, self.depth = None, 0
+            return
         if self.owner != who:
             raise RuntimeError('release of a lock not owned (owner=%r, by=%r)' % (self.owner, who))
         self.depth -= 1
@@ -113,6 +120,7 @@ class Sched(object):
         self.state_keys = set()
         self.state_probe = None      # callable() -> hashable snapshot of shared state (cheap)
         self.active = False
+        self.unwinding = set()
         self.visit = None            # callable(sched, point index) -> True to cut the execution here (closed-form search)
         self.cut = False
 
@@ -125,10 +133,16 @@ class Sched(object):
     def point(self, tid, why):
         """Scheduling point: hand the baton to the scheduler and wait to be resumed."""
         if self.abort:
-            raise Abort()        # the execution is being torn down: never block again (also while unwinding through __exit__)
+            # the execution is being torn down: never block again.  Abort is raised once per thread; while that thread
+            # unwinds (finally clauses, __exit__, generator clean-up run more traced lines) further points are no-ops
+            if tid in self.unwinding:
+                return
+            self.unwinding.add(tid)
+            raise Abort()
         self.main.release()
         self.sems[tid].acquire()
         if self.abort:
+            self.unwinding.add(tid)
             raise Abort()
 
     def yield_here(self, why='explicit'):
